@@ -104,3 +104,88 @@ Proof.
   destruct (W.server_dec_new sk) as [d|e|]; [|destruct e|reflexivity].
   destruct (W.server_enc_new sk) as [e'|e|]; [reflexivity|destruct e|reflexivity].
 Qed.
+
+(* ---- split / unsplit / is_pair_of (life cycle of the combined objects) ---- *)
+Lemma vanilla_split_translated : forall c,
+  tr_vanilla_split (vhalf_view (V.cr_dec c)) (vhalf_view (V.cr_enc c)) = Some (vhalf_view (fst (V.split c)), vhalf_view (snd (V.split c))).
+Proof. reflexivity. Qed.
+Lemma tbc_split_translated : forall c,
+  tr_tbc_split (thalf_view (T.cr_dec c)) (thalf_view (T.cr_enc c)) = Some (thalf_view (fst (T.split c)), thalf_view (snd (T.split c))).
+Proof. reflexivity. Qed.
+Lemma wrath_client_split_translated : forall c,
+  tr_wrath_client_split (cdec_view (W.cc_dec c)) (cenc_view (W.cc_enc c)) = Some (cenc_view (fst (W.cc_split c)), cdec_view (snd (W.cc_split c))).
+Proof. reflexivity. Qed.
+Lemma wrath_server_split_translated : forall c,
+  tr_wrath_server_split (sdec_view (W.sc_dec c)) (senc_view (W.sc_enc c)) = Some (senc_view (fst (W.sc_split c)), sdec_view (snd (W.sc_split c))).
+Proof. reflexivity. Qed.
+
+Lemma vanilla_is_pair_of_translated : forall e d,
+  tr_vanilla_enc_is_pair_of (V.h_key e) (c_idx (V.h_st e)) (c_prev (V.h_st e)) (V.h_key d) (c_idx (V.h_st d)) (c_prev (V.h_st d))
+  = Some (V.is_pair_of e d) /\
+  tr_vanilla_dec_is_pair_of (V.h_key d) (c_idx (V.h_st d)) (c_prev (V.h_st d)) (V.h_key e) (c_idx (V.h_st e)) (c_prev (V.h_st e))
+  = Some (V.is_pair_of e d).
+Proof. intros e d. split; reflexivity. Qed.
+
+Lemma vanilla_unsplit_translated : forall e d,
+  tr_vanilla_unsplit (V.h_key e) (c_idx (V.h_st e)) (c_prev (V.h_st e)) (V.h_key d) (c_idx (V.h_st d)) (c_prev (V.h_st d))
+  = match V.unsplit e d with
+    | Ok c => Some (inl (vhalf_view (V.cr_dec c), vhalf_view (V.cr_enc c)))
+    | Err _ => Some (inr tt) | Panic => None end.
+Proof.
+  intros e d. unfold tr_vanilla_unsplit, V.unsplit, V.is_pair_of.
+  destruct (list_eqb (V.h_key e) (V.h_key d)); reflexivity.
+Qed.
+
+(* property level: splitting a combined object and unsplitting the two halves again, as translated, gives
+   back exactly the object; halves of objects made from different session keys are refused *)
+Theorem vanilla_source_split_unsplit : forall K,
+  exists d e, tr_vanilla_crypto_new K = Some (d, e) /\ tr_vanilla_split d e = Some (e, d) /\
+    (let '(k1, i1, p1) := e in let '(k2, i2, p2) := d in tr_vanilla_unsplit k1 i1 p1 k2 i2 p2) = Some (inl (d, e)).
+Proof.
+  intros K. exists (K, 0, 0), (K, 0, 0). split; [reflexivity|]. split; [reflexivity|].
+  unfold tr_vanilla_unsplit. rewrite list_eqb_refl. reflexivity.
+Qed.
+
+Theorem vanilla_source_unsplit_refuses : forall K K' i p i' p', K <> K' ->
+  tr_vanilla_unsplit K i p K' i' p' = Some (inr tt).
+Proof.
+  intros K K' i p i' p' H. unfold tr_vanilla_unsplit.
+  destruct (list_eqb K K') eqn:E; [apply list_eqb_spec in E; contradiction|reflexivity].
+Qed.
+
+(* ---- InnerCrypto::apply and the four Wrath half encrypt / decrypt methods ---- *)
+Lemma wrath_inner_apply_translated : forall r data,
+  tr_wrath_inner_apply (rc4_triple r) data
+  = match W.inner_apply r data with Ok (r', out) => Some (rc4_triple r', tt, out) | _ => None end.
+Proof.
+  intros r data. unfold tr_wrath_inner_apply, W.inner_apply. rewrite rc4_apply_keystream_translated.
+  destruct (apply_keystream r data) as [[r' out]|e|]; [reflexivity|destruct e|reflexivity].
+Qed.
+Lemma wrath_server_enc_encrypt_translated : forall h data,
+  tr_wrath_server_enc_encrypt (rc4_triple (W.se_rc4 h)) (W.se_buf h) data
+  = match W.se_encrypt h data with Ok (h', out) => Some (senc_view h', tt, out) | _ => None end.
+Proof.
+  intros h data. unfold tr_wrath_server_enc_encrypt, W.se_encrypt. rewrite wrath_inner_apply_translated.
+  destruct (W.inner_apply _ data) as [[r out]|e|]; [reflexivity|destruct e|reflexivity].
+Qed.
+Lemma wrath_client_enc_encrypt_translated : forall h data,
+  tr_wrath_client_enc_encrypt (rc4_triple (W.ce_rc4 h)) data
+  = match W.ce_encrypt h data with Ok (h', out) => Some (cenc_view h', tt, out) | _ => None end.
+Proof.
+  intros h data. unfold tr_wrath_client_enc_encrypt, W.ce_encrypt. rewrite wrath_inner_apply_translated.
+  destruct (W.inner_apply _ data) as [[r out]|e|]; [reflexivity|destruct e|reflexivity].
+Qed.
+Lemma wrath_server_dec_decrypt_translated : forall h data,
+  tr_wrath_server_dec_decrypt (rc4_triple (W.sd_rc4 h)) data
+  = match W.sd_decrypt h data with Ok (h', out) => Some (sdec_view h', tt, out) | _ => None end.
+Proof.
+  intros h data. unfold tr_wrath_server_dec_decrypt, W.sd_decrypt. rewrite wrath_inner_apply_translated.
+  destruct (W.inner_apply _ data) as [[r out]|e|]; [reflexivity|destruct e|reflexivity].
+Qed.
+Lemma wrath_client_dec_decrypt_translated : forall h data,
+  tr_wrath_client_dec_decrypt (rc4_triple (W.cd_rc4 h)) (W.cd_hdr h) data
+  = match W.cd_decrypt h data with Ok (h', out) => Some (cdec_view h', tt, out) | _ => None end.
+Proof.
+  intros h data. unfold tr_wrath_client_dec_decrypt, W.cd_decrypt. rewrite wrath_inner_apply_translated.
+  destruct (W.inner_apply _ data) as [[r out]|e|]; [reflexivity|destruct e|reflexivity].
+Qed.
